@@ -44,7 +44,7 @@ def _cvc5_check_text(text, strings=False):
     t0 = time.time()
     try:
         slv = cvc5.Solver()
-        slv.setOption('tlimit-per', str(CVC5_TIMEOUT_MS))
+        slv.setOption('tlimit-per', str(CVC5_TIMEOUT_MS * (4 if strings else 1)))
         slv.setOption('produce-models', 'true')
         if strings:
             slv.setOption('strings-exp', 'true')
